@@ -1,13 +1,13 @@
 import FluentProofs.SerializerOutCr1
 /-!
-# Serializer lemmas, part 23: the loop of `get_pattern` keeps the shape invariant, CRLF sources (C04)
+# Serializer lemmas, part 23: the loop of `get_pattern` keeps the shape invariant, any source (C04)
 -/
 namespace FluentProofs.Ser
 open FluentModel FluentModel.Syntax FluentModel.Syntax.Ser FluentProofs.Parser
 
 theorem SliceC.toN {s : Src} {p1 stop : Nat} {nb : Bool} {term : Termination} {q : Nat}
     (h : SliceC s p1 stop nb term q) (ht : term ≠ .crlf) : SliceN s p1 stop nb term q :=
-  { le := h.le, sz := h.sz, nobrace := fun j j1 j2 => ⟨(h.nobrace j j1 j2).1, (h.nobrace j j1 j2).2.1⟩,
+  { le := h.le, sz := h.sz, nobrace := h.nobrace,
     nonl := h.nonl, lf := h.lf, pl := h.pl, eof := h.eof, nocrlf := ht }
 
 theorem roleOK_toC {s : Src} {E : PSt} {role : TextPos} {p : Nat} (h : RoleOK s E role p)
@@ -43,30 +43,33 @@ theorem roleOKC_after_text {s : Src} {p1 stop : Nat} {nb : Bool} {term : Termina
 
 theorem textBytes_ofC {s : Src} {p p1 stop : Nat} {nb : Bool} {term : Termination} {q : Nat}
     (hS : SliceC s p1 stop nb term q) (hsp : ∀ j, p ≤ j → j < p1 → s[j]? = some 32) : TextBytes s p stop := by
-  refine ⟨hS.sz, ?_, ?_⟩
+  refine ⟨hS.sz, ?_, ?_, ?_⟩
   · intro j j1 j2
     by_cases hj : j < p1
-    · rw [hsp j j1 hj]; exact ⟨by decide, by decide, by decide⟩
-    · have := hS.nobrace j (by omega) j2
-      exact ⟨this.2.2, this.1, this.2.1⟩
+    · rw [hsp j j1 hj]; exact ⟨by decide, by decide⟩
+    · exact hS.nobrace j (by omega) j2
   · intro j j1 j2
     by_cases hj : j < p1
     · rw [hsp j j1 hj]; decide
     · exact hS.nonl j (by omega) j2
+  · intro j j1 j2 h13
+    by_cases hj : j < p1
+    · rw [hsp j j1 hj] at h13; cases h13
+    · exact hS.nocrlf j (by omega) (by omega) h13
 
-/-- a slice that starts at `\r`: empty, the cursor goes to the `\n` -/
+/-- a slice that starts at `\r\n`: empty, the cursor goes to the `\n` -/
 theorem slice_at_cr {s : Src} {p1 stop : Nat} {nb : Bool} {term : Termination} {q : Nat}
-    (hS : SliceC s p1 stop nb term q) (h13 : s[p1]? = some 13) :
-    term = .crlf ∧ stop = p1 ∧ q = p1 + 1 ∧ s[p1 + 1]? = some 10 := by
+    (hS : SliceC s p1 stop nb term q) (h13 : s[p1]? = some 13) (h10 : s[p1 + 1]? = some 10) :
+    term = .crlf ∧ stop = p1 ∧ q = p1 + 1 := by
   have hle := hS.le
   have hstop : stop = p1 := by
     by_cases h : p1 < stop
-    · exact absurd h13 (hS.nobrace p1 (Nat.le_refl _) h).2.2
+    · exact absurd h10 (hS.nocrlf p1 (Nat.le_refl _) h h13)
     · omega
   subst hstop
   cases term with
   | lineFeed => have := (hS.lf rfl).1; omega
-  | crlf => obtain ⟨_, h2, h3, _⟩ := hS.crlf rfl; exact ⟨rfl, rfl, h3, h2⟩
+  | crlf => obtain ⟨_, _, h3, _⟩ := hS.crlf rfl; exact ⟨rfl, rfl, h3⟩
   | placeableStart => have := (hS.pl rfl).1; rw [h13] at this; cases this
   | eof => have := (hS.eof rfl).1; have := get_lt h13; omega
 
@@ -76,12 +79,12 @@ theorem st2Of_empty' {s : Src} {st : PatState} {p indent start : Nat} {nb : Bool
 
 /-- **an empty slice in front of `\r\n`**: nothing is pushed, the line feed is pending -/
 theorem step_emptyC {s : Src} {r0 : TextPos} {st : PatState} {p : Nat} (hI : PInvC s r0 st p)
-    {p1 : Nat} (h13 : s[p1]? = some 13)
+    {p1 : Nat} (h13 : s[p1]? = some 13) (h10 : s[p1 + 1]? = some 10)
     (hE : endSt s (.first r0) st.elements = .afterNl ∨ endSt s (.first r0) st.elements = .afterPl)
     {indent start stop : Nat} {nb : Bool} {term : Termination} {q : Nat} {st2 : PatState}
     (hst : start = p1) (hS : SliceC s p1 stop nb term q)
     (h2 : st2Of s st p indent start stop nb term = some st2) : PInvC s r0 { st2 with role := pRoleOf term } q := by
-  obtain ⟨rfl, rfl, rfl, h10⟩ := slice_at_cr hS h13
+  obtain ⟨rfl, rfl, rfl⟩ := slice_at_cr hS h13 h10
   subst hst
   rw [st2Of_empty'] at h2
   cases h2
@@ -94,7 +97,8 @@ theorem step_emptyC {s : Src} {r0 : TextPos} {st : PatState} {p : Nat} (hI : PIn
 /-- the states in which a slice in the middle of a line can start -/
 theorem roleOKC_nls {s : Src} {E : PSt} {role : TextPos} {p : Nat} (h : RoleOKC s E role p)
     (hr : (role == .lineStart) = false) (hp : p < s.size) (h123 : s[p]? ≠ some 123) :
-    (E = .first .initialLineStart ∧ role = .initialLineStart ∧ ∀ c, s[p]? = some c → c ≠ 32 ∧ c ≠ 10 ∧ c ≠ 13) ∨
+    (E = .first .initialLineStart ∧ role = .initialLineStart ∧
+      ∀ c, s[p]? = some c → c ≠ 32 ∧ c ≠ 10 ∧ (c = 13 → s[p + 1]? ≠ some 10)) ∨
     (E = .afterPl ∧ role = .continuation) := by
   cases E with
   | first r =>
@@ -117,7 +121,8 @@ theorem roleOKC_nls {s : Src} {E : PSt} {role : TextPos} {p : Nat} (h : RoleOKC 
 
 /-- the states in which a line can start -/
 theorem roleOKC_ls {s : Src} {E : PSt} {role : TextPos} {p : Nat} (h : RoleOKC s E role p) (hr : role = .lineStart) :
-    (E = .first .lineStart ∧ s[skipBlankInline s p]? ≠ some 10 ∧ s[skipBlankInline s p]? ≠ some 13) ∨ E = .afterNl ∨
+    (E = .first .lineStart ∧ s[skipBlankInline s p]? ≠ some 10 ∧
+      (s[skipBlankInline s p]? = some 13 → s[skipBlankInline s p + 1]? ≠ some 10)) ∨ E = .afterNl ∨
     ((E = .afterText ∨ E = .afterPl) ∧ s[p]? = some 10) := by
   subst hr
   cases E with
@@ -142,10 +147,10 @@ theorem step_midC {s : Src} {r0 : TextPos} {st : PatState} {p : Nat} (hI : PInvC
     (hst : start = p) (hS : SliceC s p stop nb term q)
     (h2 : st2Of s st p 0 start stop nb term = some st2) : PInvC s r0 { st2 with role := pRoleOf term } q := by
   have hE := roleOKC_nls hI.role hr hp h123
-  by_cases h13 : s[p]? = some 13
+  by_cases h13 : s[p]? = some 13 ∧ s[p + 1]? = some 10
   · rcases hE with ⟨_, _, hc⟩ | ⟨hE, _⟩
-    · exact absurd rfl (hc 13 h13).2.2
-    · exact step_emptyC hI h13 (Or.inr hE) hst hS h2
+    · exact absurd h13.2 ((hc 13 h13.1).2.2 rfl)
+    · exact step_emptyC hI h13.1 h13.2 (Or.inr hE) hst hS h2
   · subst hst
     have hlt : start < stop := by
       have hle := hS.le
@@ -154,7 +159,7 @@ theorem step_midC {s : Src} {r0 : TextPos} {st : PatState} {p : Nat} (hI : PInvC
         subst h
         cases term with
         | lineFeed => have := (hS.lf rfl).1; omega
-        | crlf => exact h13 (hS.crlf rfl).1
+        | crlf => exact h13 ⟨(hS.crlf rfl).1, (hS.crlf rfl).2.1⟩
         | placeableStart => exact h123 (hS.pl rfl).1
         | eof => have := (hS.eof rfl).1; omega
       · omega
@@ -177,7 +182,7 @@ theorem step_midC {s : Src} {r0 : TextPos} {st : PatState} {p : Nat} (hI : PInvC
 theorem preOf_factsC {s : Src} {st : PatState} {p indent p1 : Nat}
     (h : preOf s st p = some (indent, p1)) :
     (st.role = .lineStart ∧ p1 = skipBlankInline s p ∧ p + indent = p1 ∧
-      ∃ b, s[p1]? = some b ∧ b ≠ 32 ∧ (indent = 0 → b = 10 ∨ b = 13) ∧
+      ∃ b, s[p1]? = some b ∧ b ≠ 32 ∧ (indent = 0 → b = 10 ∨ (b = 13 ∧ s[p1 + 1]? = some 10)) ∧
         (0 < indent → b ≠ 46 ∧ b ≠ 125 ∧ b ≠ 91 ∧ b ≠ 42)) ∨
     ((st.role == .lineStart) = false ∧ indent = 0 ∧ p1 = p) := by
   unfold preOf at h
@@ -200,10 +205,10 @@ theorem preOf_factsC {s : Src} {st : PatState} {p indent p1 : Nat}
           have hi' : skipBlankInline s p - p = 0 := by simpa using hi
           refine ⟨hr', rfl, by omega, b, hb, h32, fun _ => ?_, fun h0 => by omega⟩
           have he' : isEol s (skipBlankInline s p) = true := by simpa using he
-          rcases isEol_cases he' with h1 | h1 | ⟨h1, _⟩
+          rcases isEol_cases he' with h1 | h1 | ⟨h1, h1'⟩
           · rw [hb] at h1; cases h1
           · rw [hb] at h1; cases h1; exact Or.inl rfl
-          · rw [hb] at h1; cases h1; exact Or.inr rfl
+          · rw [hb] at h1; cases h1; exact Or.inr ⟨rfl, h1'⟩
       · rename_i hi
         split at h
         · cases h
@@ -309,18 +314,18 @@ theorem step_contentC {s : Src} {r0 : TextPos} {st : PatState} {p : Nat} (hI : P
     (hr : st.role = .lineStart) {indent p1 : Nat} (hp1 : p1 = skipBlankInline s p) (hind : p + indent = p1)
     (hpos : 0 < indent)
     (hsp : ∀ j, p ≤ j → j < p1 → s[j]? = some 32) {b : UInt8} (hb : s[p1]? = some b)
-    (h32 : b ≠ 32) (h10 : b ≠ 10) (h123 : b ≠ 123) (h13 : b ≠ 13) (hcont : b ≠ 46 ∧ b ≠ 125 ∧ b ≠ 91 ∧ b ≠ 42)
+    (h32 : b ≠ 32) (h10 : b ≠ 10) (h123 : b ≠ 123) (h13 : b = 13 → s[p1 + 1]? ≠ some 10) (hcont : b ≠ 46 ∧ b ≠ 125 ∧ b ≠ 91 ∧ b ≠ 42)
     {start stop : Nat} {nb : Bool} {term : Termination} {q : Nat} {st2 : PatState}
     (hst : start = p1) (hS : SliceC s p1 stop nb term q)
     (h2 : st2Of s st p indent start stop nb term = some st2) : PInvC s r0 { st2 with role := pRoleOf term } q := by
   obtain ⟨hlt, rfl⟩ : p1 < stop ∧ nb = true := by
     by_cases ht : term = .crlf
     · subst ht
-      obtain ⟨c1, _, _, c4, _⟩ := hS.crlf rfl
+      obtain ⟨c1, c2, _, c4, _⟩ := hS.crlf rfl
       have hle := hS.le
       have : p1 < stop := by
         by_cases h : p1 = stop
-        · subst h; rw [hb] at c1; cases c1; exact absurd rfl h13
+        · subst h; rw [hb] at c1; cases c1; exact absurd c2 (h13 rfl)
         · omega
       exact ⟨this, by rw [c4]; exact nonBlank_first this hb h32⟩
     · exact slice_at_content (hS.toN ht) hb h32 h10 h123
@@ -342,25 +347,26 @@ theorem step_contentC {s : Src} {r0 : TextPos} {st : PatState} {p : Nat} (hI : P
 
 /-! ## the loop -/
 
-theorem step_textC {s : Src} (hcr : NoLoneCR s) {r0 : TextPos} {st : PatState} {p : Nat} (hI : PInvC s r0 st p)
+theorem step_textC {s : Src} {r0 : TextPos} {st : PatState} {p : Nat} (hI : PInvC s r0 st p)
     (hp : p < s.size) (h123 : s[p]? ≠ some 123) {indent p1 : Nat} (hpre : preOf s st p = some (indent, p1))
     {start stop : Nat} {nb : Bool} {term : Termination} {q : Nat} {st2 : PatState}
     (hts : getTextSlice s p1 = .ok (start, stop, nb, term) q)
     (h2 : st2Of s st p indent start stop nb term = some st2) : PInvC s r0 { st2 with role := pRoleOf term } q := by
   rcases preOf_factsC hpre with ⟨hr, hp1, hind, b, hb, h32, hz, hpos⟩ | ⟨hr, rfl, rfl⟩
   · have hsz : p1 ≤ s.size := Nat.le_of_lt (get_lt hb)
-    obtain ⟨hst, hS⟩ := sliceC hcr hsz hts
+    obtain ⟨hst, hS⟩ := sliceC hsz hts
     have hsp : ∀ j, p ≤ j → j < p1 → s[j]? = some 32 := by rw [hp1]; exact skipBlankInline_spaces s p
     by_cases h10 : b = 10
     · subst h10; exact step_blankC hI hr hp1 hb hst hS h2
-    · by_cases h13 : b = 13
-      · subst h13
-        refine step_emptyC hI hb (Or.inl ?_) hst hS h2
+    · by_cases h13 : b = 13 ∧ s[p1 + 1]? = some 10
+      · obtain ⟨h13, h10'⟩ := h13
+        subst h13
+        refine step_emptyC hI hb h10' (Or.inl ?_) hst hS h2
         rcases roleOKC_ls_real hI.role hr (by rw [← hp1]; exact hb) (by decide) with h | h
         · exfalso
           have := hI.role
           rw [h] at this
-          exact this.2.2 (by rw [← hp1]; exact hb)
+          exact this.2.2 (by rw [← hp1]; exact hb) (by rw [← hp1]; exact h10')
         · exact h
       · have hi : 0 < indent := by
           rcases Nat.eq_zero_or_pos indent with h | h
@@ -370,12 +376,12 @@ theorem step_textC {s : Src} (hcr : NoLoneCR s) {r0 : TextPos} {st : PatState} {
           · exact h
         by_cases hb123 : b = 123
         · subst hb123; exact step_ghostC hI hr hp1 hind hi hsp hb hst hS h2
-        · exact step_contentC hI hr hp1 hind hi hsp hb h32 h10 hb123 h13 (hpos hi) hst hS h2
-  · obtain ⟨hst, hS⟩ := sliceC hcr (Nat.le_of_lt hp) hts
+        · exact step_contentC hI hr hp1 hind hi hsp hb h32 h10 hb123 (fun h0 h1 => h13 ⟨h0, h1⟩) (hpos hi) hst hS h2
+  · obtain ⟨hst, hS⟩ := sliceC (Nat.le_of_lt hp) hts
     exact step_midC hI hp h123 hr hst hS h2
 
-/-- **the loop of `get_pattern` keeps the shape invariant** (sources without lone `\r`) -/
-theorem patternLoop_pinvC {s : Src} (hcr : NoLoneCR s) (r0 : TextPos) :
+/-- **the loop of `get_pattern` keeps the shape invariant** (any source) -/
+theorem patternLoop_pinvC {s : Src} (r0 : TextPos) :
     ∀ (n : Nat) (st : PatState) (p : Nat) (st' : PatState) (q : Nat), PInvC s r0 st p →
       getPatternLoop s n st p = .ok st' q → ∃ p', PInvC s r0 st' p' := by
   intro n
@@ -446,7 +452,7 @@ theorem patternLoop_pinvC {s : Src} (hcr : NoLoneCR s) (r0 : TextPos) :
             | none => simp [h2] at h
             | some st2 =>
               simp only [h2] at h
-              exact ih _ _ _ _ (step_textC hcr hI hp h123 hpre hts h2) h
+              exact ih _ _ _ _ (step_textC hI hp h123 hpre hts h2) h
           | err e q1 => simp [hts] at h
           | panic m => simp [hts] at h
           | fuel => simp [hts] at h
@@ -456,17 +462,16 @@ theorem patternLoop_pinvC {s : Src} (hcr : NoLoneCR s) (r0 : TextPos) :
       cases h
       exact ⟨p, hI⟩
 
-theorem pinvC_init_inline {s : Src} (hcr : NoLoneCR s) (p1 : Nat) (h32 : s[p1]? ≠ some 32) (hE : skipEol s p1 = none) :
+theorem pinvC_init_inline {s : Src} (p1 : Nat) (h32 : s[p1]? ≠ some 32) (hE : skipEol s p1 = none) :
     PInvC s .initialLineStart ⟨[], none, none, .initialLineStart, none⟩ p1 := by
   refine ⟨trivial, ⟨rfl, ?_⟩, rfl, fun i hi => by cases hi⟩
   intro c hc
-  refine ⟨fun h0 => h32 (by rw [hc, h0]), fun h0 => ?_, fun h0 => ?_⟩
+  refine ⟨fun h0 => h32 (by rw [hc, h0]), fun h0 => ?_, fun h0 h10 => ?_⟩
   · subst h0; simp [skipEol, hc] at hE
   · subst h0
-    have := hcr p1 hc
-    simp [skipEol, hc, this] at hE
+    simp [skipEol, hc, h10] at hE
 
-theorem pinvC_init_block {s : Src} (hcr : NoLoneCR s) (q : Nat) :
+theorem pinvC_init_block {s : Src} (q : Nat) :
     PInvC s .lineStart ⟨[], none, none, .lineStart, none⟩ (skipBlankBlock s q).1 := by
   have hnb : ∀ b, s[skipBlankInline s (skipBlankBlock s q).1]? = some b →
       skipEol s (skipBlankInline s (skipBlankBlock s q).1) = none := by
@@ -481,8 +486,8 @@ theorem pinvC_init_block {s : Src} (hcr : NoLoneCR s) (q : Nat) :
   · intro h10
     have := hnb _ h10
     simp [skipEol, h10] at this
-  · intro h13
+  · intro h13 h10
     have := hnb _ h13
-    simp [skipEol, h13, hcr _ h13] at this
+    simp [skipEol, h13, h10] at this
 
 end FluentProofs.Ser
